@@ -718,26 +718,6 @@ def run_search(c, tier, rng, rd, exe):
                     qs.append(q + [0])
         qs = rng.sample(qs, min(len(qs), 64 if tier == "quick" else 125))
         cases.append(dict(S=S, per=0, pos=pos, h2=[1] * len(pos), q=qs, frame=rng.choice(["dyadic", "generic"]), npc=npc))
-    chunks = [cases[k:k + 10] for k in range(0, len(cases), 10)]
-
-    def job(args):
-        k, ch = args
-        f = os.path.join(rd, "search_%d.json" % k)
-        json.dump([{kk: cs[kk] for kk in ("S", "per", "pos", "h2", "q")} for cs in ch], open(f, "w"))
-        cfg = os.path.join(rd, "search_%d.cfg" % k)
-        open(cfg, "w").write("SPECIFICATION Spec\n")
-        r = vlib.tlc("MC_NearestLattice.tla", cfg, rd, workers=1, timeout=3000, tag="search_%d" % k, env={"CASES": f}, xss="512m")
-        m = re.search(r'<<"SEARCH", "(.*)">>', r.out)
-        if r.rc != 0 or not m:
-            raise vlib.Inconclusive("MC_NearestLattice failed:\n" + r.out[-2500:])
-        return ch, unjson(m.group(1)), r
-
-    with ThreadPoolExecutor(max_workers=8) as ex:
-        res = list(ex.map(job, enumerate(chunks)))
-    exp = []
-    for ch, e, r in res:
-        c.add_model("NearestLattice evaluation", r, "%d point sets" % len(ch))
-        exp += e
     txt = os.path.join(rd, "search_in.txt")
     with open(txt, "w") as fh:
         for cs in cases:
@@ -751,6 +731,31 @@ def run_search(c, tier, rng, rd, exe):
     o = os.path.join(rd, "search_out.ndjson")
     rc, out = vlib.sh("%s search %s %s" % (exe, txt, o), timeout=600 if tier == "quick" else 3000)
     got = read_out(o)
+    for i, cs in enumerate(cases):
+        cs["iter"] = got[i].get("iter", []) if i < len(got) else []
+    chunks = [cases[k:k + 10] for k in range(0, len(cases), 10)]
+
+    def job(args):
+        k, ch = args
+        f = os.path.join(rd, "search_%d.json" % k)
+        json.dump([{kk: cs[kk] for kk in ("S", "per", "pos", "h2", "q", "iter")} for cs in ch], open(f, "w"))
+        cfg = os.path.join(rd, "search_%d.cfg" % k)
+        open(cfg, "w").write("SPECIFICATION Spec\n")
+        r = vlib.tlc("MC_NearestLattice.tla", cfg, rd, workers=1, timeout=3000, tag="search_%d" % k, env={"CASES": f}, xss="512m")
+        m = re.search(r'<<\s*"SEARCH",\s*"(.*?)"\s*>>', r.out, re.S)
+        mi = re.search(r'<<\s*"ITER",\s*"(.*?)"\s*>>', r.out, re.S)
+        if r.rc != 0 or not m or not mi:
+            raise vlib.Inconclusive("MC_NearestLattice failed:\n" + r.out[-2500:])
+        return ch, unjson(m.group(1)), r, unjson(mi.group(1))
+
+    with ThreadPoolExecutor(max_workers=8) as ex:
+        res = list(ex.map(job, enumerate(chunks)))
+    exp = []
+    itv = []
+    for ch, e, r, iv in res:
+        c.add_model("NearestLattice evaluation", r, "%d point sets" % len(ch))
+        exp += e
+        itv += iv
     nq = 0
     for i, cs in enumerate(cases):
         sig = "per=%d:npos=%s" % (cs["per"], "small" if len(cs["pos"]) <= 12 else "large")
@@ -781,11 +786,22 @@ def run_search(c, tier, rng, rd, exe):
                     bad[0], q, len(cs["pos"]), cs["S"], cs["per"], bad[1], bad[2]), dict(info, query=q, code=g, spec=e))
                 okc = False
                 break
+        for k, v in enumerate(itv[i] if i < len(itv) else []):
+            if okc and not (v["exhaustive"] and v["complete"]):
+                it = cs["iter"][k]
+                c.violation("search:pointlocations.ngbiterator:%s" % ("exhaustive" if not v["exhaustive"] else "complete"),
+                            "PointLocations neighbour iterator around point %d of a set of %d: %s" % (
+                                it["i"], len(cs["pos"]),
+                                "does not return every point exactly once (%d returned, %d twice)" % (it["count"], it["dup"])
+                                if not v["exhaustive"] else "a point inside the radius it claims to be complete in had not been returned yet"),
+                            dict(info, iterator={kk: it[kk] for kk in ("i", "dup", "count", "stages")}))
+                okc = False
         if okc:
             c.cov["traces_validated_against_impl"] += 1
     c.cov["search_queries_compared"] = nq
+    c.cov["ngbiterator_walks_checked"] = sum(len(x) for x in itv)
     c.sample({"search_case": {k: cases[0][k] for k in ("S", "per", "frame", "npc")}, "npos": len(cases[0]["pos"]), "query": cases[0]["q"][0]})
-    vlib.log("search structures: %d point sets, %d queries compared with the integer brute force" % (len(cases), nq))
+    vlib.log("search structures: %d point sets, %d queries compared with the integer brute force, %d neighbour iterator walks" % (len(cases), nq, sum(len(x) for x in itv)))
 
 
 def run(c):
